@@ -25,7 +25,19 @@ Tiny == {VNull, VNum(N_one)}
 T1(cs0) == ArrsOver(Tiny, 1) \cup ObjsOver(Tiny, KeysU, 2, cs0)
 L2(cs0) == ArrsOver(Tiny \cup T1(cs0), 2) \cup ObjsOver(Tiny \cup T1(cs0), {<<97>>, <<65>>}, 2, cs0)
 
+\* beyond the small scope: very wide containers (every sibling must be visited, none counted as nesting), long strings
+WideA(n, last) == VArr([i \in 1..n |-> IF i = n THEN last ELSE VNum(N_one)])
+RECURSIVE Dec(_)
+Dec(n) == IF n < 10 THEN <<48 + n>> ELSE Dec(n \div 10) \o <<48 + (n - 10 * (n \div 10))>>
+WideO(n, last) == VObj([i \in 1..n |-> <<<<107>> \o Dec(i), IF i = n THEN last ELSE VNum(N_one)>>])
+WideORev(n, last) == VObj([i \in 1..n |-> <<<<107>> \o Dec(n + 1 - i), IF i = 1 THEN last ELSE VNum(N_one)>>])
+LongS(n, c) == VStr([i \in 1..n |-> IF i = n THEN c ELSE 97])
+BigVals == {WideA(n, x) : n \in {999, 1000, 1001, 5001, 10000, 10001, 12000}, x \in {VNum(N_one), VNum(N_two)}}
+           \cup {WideA(9990, WideA(20, VNull)), WideA(9990, WideA(20, VTrue))}
+           \cup {WideO(n, x) : n \in {300, 301}, x \in {VNum(N_one), VNull}} \cup {WideORev(n, VNum(N_one)) : n \in {300, 301}}
+           \cup {LongS(n, c) : n \in {255, 256, 257, 5000}, c \in {97, 98}}
 Universe(cs0) == IF Tier = "quick" THEN Scal(NumsQ) \cup L1(cs0)
+                 ELSE IF Tier = "big" THEN BigVals
                  ELSE Scal(NumsT) \cup L1(cs0) \cup L2(cs0)
 
 Init == /\ phase = 0 /\ cs \in BOOLEAN /\ a \in Universe(cs) /\ b = VNull
@@ -37,7 +49,7 @@ Check(x, y, c) ==
   /\ Emit => PrintT(ToJson(<<"C", JV(x), JV(y), c, sem>>))
 
 Next == /\ phase = 0 /\ phase' = 1 /\ UNCHANGED <<a, cs>>
-        /\ b' \in Universe(cs)
+        /\ b' \in (IF Tier = "big" THEN {y \in Universe(cs) : y.t = a.t /\ Len(y.m) = Len(a.m) /\ Len(y.s) = Len(a.s)} ELSE Universe(cs))   \* wide values only against their own variants
         /\ Check(a, b', cs)
 
 RECURSIVE HasNaN(_)
